@@ -2,6 +2,7 @@ package checks
 
 import (
 	"bytes"
+	"encoding/hex"
 	"encoding/json"
 	"fmt"
 	"math/rand"
@@ -138,10 +139,17 @@ func checkC19(c *core.Ctx) {
 	var events []int64
 	texts := map[int]string{}
 	var nontrivial int64
-	for i := 0; i < ndocs; i++ {
-		gen.R = rng
-		doc := gen.Doc()
-		text := RenderSpaces(UnparseQuery(doc, rng))
+	hand := handJSONDocs()
+	for i := 0; i < ndocs+len(hand); i++ {
+		var text string
+		if i < len(hand) {
+			text = hand[i]
+		} else {
+			gen.R = rng
+			gen.Unicode = i%2 == 0
+			doc := gen.Doc()
+			text = RenderSpaces(UnparseQuery(doc, rng))
+		}
 		before, after, d, ok, crash := jsonRoundTrip(text)
 		if crash != "" {
 			c.Violation(fmt.Sprintf("generated document %q: %s", text, crash), GrammarMismatch{Kind: "crash", Text: text, Observed: crash})
@@ -166,7 +174,7 @@ func checkC19(c *core.Ctx) {
 				break
 			}
 		}
-		b, _ := json.Marshal(map[string]any{"id": i, "before": gtNorm(before), "after": gtNorm(after), "keysets": ks})
+		b, _ := json.Marshal(map[string]any{"id": i, "before": gtHex(gtNorm(before)), "after": gtHex(gtNorm(after)), "keysets": ks})
 		lines = append(lines, b)
 		events = append(events, int64(len(ks)))
 		texts[i] = text
@@ -216,4 +224,35 @@ func jsonRespellings(b []byte, k int) []jsonAlt {
 		}
 	}
 	return nil
+}
+
+// gtHex: leaf texts that are not plain ASCII travel to the specification as the hexadecimal form of their BYTES
+// (a JSON string cannot carry every byte sequence; two values are equal exactly when their bytes are)
+func gtHex(a []GT) []GT {
+	out := make([]GT, len(a))
+	for i, n := range a {
+		out[i] = GT{T: n.T, V: n.V, K: gtHex(n.K)}
+		for j := 0; j < len(n.V); j++ {
+			if n.V[j] >= 0x7f || n.V[j] < 0x20 {
+				out[i].V = "hex:" + hex.EncodeToString([]byte(n.V))
+				break
+			}
+		}
+	}
+	return out
+}
+
+// handJSONDocs: every tricky string value in every spelling, at every place a document holds a value, and block
+// strings written directly whose lines are indented with a mix of blanks, tabs and Unicode spaces
+func handJSONDocs() []string {
+	var out []string
+	for _, v := range trickyStrings {
+		for _, sp := range stringSpellings(v) {
+			out = append(out, "query Q($v: String = "+sp+" @d(x: ["+sp+"])) { f(a: {k: "+sp+"}) @e(s: "+sp+") ... @i(s: "+sp+") { g } ...F @s(s: "+sp+") } fragment F on T @fd(s: "+sp+") { h(a: "+sp+") }")
+		}
+	}
+	for _, body := range []string{"x\n\u3000a\n b", "\n\u00a0a\n\tb\n  c", "x\n\u2003\u2003a\n\u2003b\n c", "\n  \u3000a\n  b\n", "x\n\u00a0\n \u00a0y"} {
+		out = append(out, "{ f(a: \"\"\""+body+"\"\"\") }")
+	}
+	return out
 }
